@@ -336,6 +336,11 @@ fn apply_arith(acc: &Tensor, op: &str, arg: &[Tensor], extra: &Value) -> Result<
             "div" => x.div_scalar_inplace(num(extra)),
             "mean" => x.mean_inplace(&arg.iter().collect()),
             "clamp" => x = x.clamp(extra[0].as_i64().unwrap() as f32, extra[1].as_i64().unwrap() as f32),
+            // bounded on one side: the other bound is infinite
+            "clamp1" => {
+                let b = extra["bound"].as_i64().unwrap() as f32;
+                x = if extra["side"] == "upper" { x.clamp(f32::NEG_INFINITY, b) } else { x.clamp(b, f32::INFINITY) }
+            }
             "transpose" => x = x.transpose(),
             "dot" => x = x.dot(&arg[0]),
             "product" => x = x.product(&arg[0]),
@@ -372,7 +377,7 @@ pub fn replay_arith(case: &Value, rep: &mut Report, rng: &mut Rng) {
         let op = str_of(step, "op");
         let args: Vec<Tensor> = match op {
             "mean" => step["arg"].as_array().unwrap().iter().map(spec_tensor).collect(),
-            "div" | "clamp" | "transpose" => vec![],
+            "div" | "clamp" | "clamp1" | "transpose" => vec![],
             _ => vec![spec_tensor(&step["arg"])],
         };
         let want = str_of(step, "outcome");
